@@ -25,7 +25,8 @@ func (c *ctx) genEvents() {
 	for _, k := range fns {
 		fd := c.funcs[k]
 		if fd == nil {
-			c.failf("function %s not found", k)
+			// only the bridges that mention this function break, not the whole file
+			items = append(items, fmt.Sprintf("(%s, [%s])", leanStr(k), leanStr("<function not found>")))
 			continue
 		}
 		recv := ""
